@@ -327,17 +327,19 @@ TBP_MOD2 = '''module tbmod2
     real :: x
     type(st) :: s
     type(st) :: sa(2)
-  contains
-    procedure :: outer => tt_outer
-  end type tt
-contains
+%(bind)send type tt
+%(proc)send module tbmod2
+'''
+# the bound procedure of tt exists only together with its only caller (block T_nested): every routine of a case is
+# part of the call tree the Scheduler processes, as the statement speaks about caller and callee *together*
+TBP_MOD2_BIND = '  contains\n    procedure :: outer => tt_outer\n  '
+TBP_MOD2_PROC = '''contains
   subroutine tt_outer(this, y)
     class(tt), intent(inout) :: this
     real, intent(in) :: y
     call this%s%add(y)
     this%x = this%x + this%s%getx()
   end subroutine tt_outer
-end module tbmod2
 '''
 
 TBP_BLOCKS = {
@@ -398,7 +400,9 @@ def tbp_sources(switches):
     kern = ('subroutine kern(n, s, t, r)\n  use tbmod, only: st\n  use tbmod2, only: tt\n  implicit none\n'
             '  integer, intent(in) :: n\n  type(st), intent(inout) :: s\n  type(tt), intent(inout) :: t\n'
             '  real, intent(inout) :: r\n  integer :: i\n' + body + 'end subroutine kern\n')
-    return [['tbmod.f90', TBP_MOD1], ['tbmod2.f90', TBP_MOD2], ['kern.f90', kern]], TBP_DRIVER
+    nested = 'T_nested' in switches
+    mod2 = TBP_MOD2 % dict(bind=TBP_MOD2_BIND if nested else '  ', proc=TBP_MOD2_PROC if nested else '')
+    return [['tbmod.f90', TBP_MOD1], ['tbmod2.f90', mod2], ['kern.f90', kern]], TBP_DRIVER
 
 
 # =============================================================================================== SEQ
@@ -657,7 +661,7 @@ def shp_sources(switches, depth):
     kern = ('subroutine kern(n, m, a, c0, a2, q, t, r)\n  use tymod, only: tw\n  use kmod, only: ' + ', '.join(['lev1'] + need + copies) +
             '\n  implicit none\n  integer, intent(in) :: n, m\n  real, intent(inout) :: a(n), c0(0:n), a2(n, 3), q(4)\n'
             '  type(tw), intent(inout) :: t\n  real, intent(inout) :: r\n  real :: loc(n + 1), lm(m)\n  call lev1(a, r)\n')
-    kern += ''.join(b.get('kern', '') for b in blocks) + 'end subroutine kern\n'
+    kern += ''.join(b.get('kern', '') for b in blocks) + '  r = r + real(n) + real(m)\nend subroutine kern\n'
     return [['tymod.f90', SHP_TYMOD], ['kmod.f90', kmod], ['kern.f90', kern]], SHP_DRIVER
 
 
